@@ -184,7 +184,11 @@ def haralick13 (m : Nat) (c : List Nat) : List Float :=
   let f12 := (f9 - hxy1) / (if hx < hy then hy else hx)
   let e := 1.0 - Float.exp (-2.0 * (hxy2 - f9))
   let f13 := Float.sqrt (if e < 0.0 then 0.0 else e)
-  [f1, f2, f3, f4, f5, f6, f7, f8, f9, f10, f11, f12, f13, vx, vy, hx, hy]
+  -- the two documented alternatives: `use_x_minus_y_variance` (f10 = VAR[|x−y|]) and
+  -- `preserve_haralick_bug` (f7 centred at the sum entropy f8 instead of the sum average f6)
+  let f10alt := varG 0.0 fl pminus m
+  let f7bug := sumVarG 0.0 fl m pplus f8
+  [f1, f2, f3, f4, f5, f6, f7, f8, f9, f10, f11, f12, f13, vx, vy, hx, hy, f10alt, f7bug]
 
 /-- `ignore_zeros`: first row and column cleared -/
 def stripZeros (m : Nat) (c : List Nat) : List Nat :=
